@@ -369,6 +369,7 @@ PLANS = {
     "C16": plan(["flow_q", "gate_q"], ["flow_t", "ibc_t", "gate_t"], ["flow_treasury_q", "ibc_q", "gate_q", "own", "treasury_q"],
                 ["flow_t", "flow_treasury_t", "ibc_t", "gate_t", "own_t", "treasury_t"], W_Q, W_T,
                 wide={"quick": [(30, 60, 0), (30, 60, 1)], "thorough": [(400, 80, 0), (400, 80, 1)]}),
+    "C17": plan(["flow_q"], ["flow_t"], [], [], [("chaos", 6, 60)], [("chaos", 60, 70)]),
     "C19": plan(["flow_q"], ["flow_t"], ["flow_q"], ["flow_t"], [("chaos", 8, 60)], [("chaos", 100, 70)]),
     "C15": plan(["flow_q", "flow_treasury_q"], ["flow_t", "flow_treasury_t"], ["flow_q", "flow_treasury_q"], ["flow_t", "flow_treasury_t"], W_Q, W_T),
 }
@@ -519,7 +520,37 @@ def hook_c09(binp, tier, seed, wd):
     return extra, viols
 
 
-HOOKS = {"C04": hook_c04, "C19": hook_c19, "C09": hook_c09}
+def hook_c17(binp, tier, seed, wd):
+    extra, viols = {}, []
+    # the paging theorem of Queries.tla over all stores of <= 5 (6) batches
+    cfg = os.path.join(wd, "QueriesMC.cfg")
+    open(cfg, "w").write(f"SPECIFICATION Spec\nCONSTANT MaxBatches = {5 if tier == 'quick' else 6}\nINVARIANTS Complete Ascending PagesArePrefixes\nCHECK_DEADLOCK FALSE\n")
+    rc, out, wall = tlc(os.path.join(SPEC, "QueriesMC.tla"), cfg, wd, workers=8, timeout=1200)
+    m = STAT_RE.search(out)
+    if "No error has been found" not in out or not m:
+        raise ToolError("QueriesMC: paging theorem fails in the specification\n" + out[-1500:])
+    extra["paging_theorem"] = {"stores": int(m.group(2)), "max_batches": 5 if tier == "quick" else 6}
+    log(f"[query] paging completeness theorem holds on all {m.group(2)} stores ({wall:.1f}s)")
+    qs = os.path.join(wd, "qsweep.ndjson")
+    runs, steps = (4, 40) if tier == "quick" else (40, 80)
+    mwh(binp, ["qsweep", qs, seed, runs, steps, 15])
+    n, fs, wall = small_trace_check("QueryTrace", qs, wd, timeout=1800)
+    kinds = {}
+    for ln in open(qs):
+        k = json.loads(ln)["kind"]
+        kinds[k] = kinds.get(k, 0) + 1
+    extra["query_records"] = n
+    extra["query_records_by_kind"] = kinds
+    extra["query_findings"] = len(fs)
+    with open(qs) as f:
+        extra["query_sample"] = json.loads(f.readline())
+    log(f"[query] {n} real query responses ({kinds}) checked against Queries.tla in {wall:.1f}s: {len(fs)} findings")
+    if fs:
+        viols.append(("qsweep", qs, fs[0]))
+    return extra, viols
+
+
+HOOKS = {"C04": hook_c04, "C19": hook_c19, "C09": hook_c09, "C17": hook_c17}
 
 
 def run_property(prop, tier, seed):
